@@ -3,6 +3,7 @@ package rules
 
 import (
 	"fmt"
+	"go/token"
 	"sort"
 	"strings"
 	"sync"
@@ -423,4 +424,60 @@ func (r *R) pairedLoopUpdate(rule string, fn *ssa.Function, a, b, why string) {
 	default:
 		r.Hold(rule, construct, r.pos(pa), fmt.Sprintf("%d iteration paths enumerated", npaths))
 	}
+}
+
+// condCall returns the call that an If condition consists of (through !) and whether it is negated.
+func condCall(v ssa.Value) (*ssa.Call, bool) {
+	neg := false
+	for {
+		if u, ok := v.(*ssa.UnOp); ok && u.Op == token.NOT {
+			neg = !neg
+			v = u.X
+			continue
+		}
+		break
+	}
+	c, _ := v.(*ssa.Call)
+	return c, neg
+}
+
+// onlyWhenCall: every instruction matching target is reachable only through the outcome `want` of an If
+// whose condition is a call to callee accepted by argOK. One obligation.
+func (r *R) onlyWhenCall(rule string, fn *ssa.Function, target NM, callee string, want bool, argOK func(*ssa.Call) bool, why string) bool {
+	if fn == nil {
+		return false
+	}
+	construct := fmt.Sprintf("%s: %s only when %s is %v", ssax.FuncName(fn), target.Name, callee, want)
+	if len(ssax.Find(fn, target.M)) == 0 {
+		r.Violate(rule, construct, r.fpos(fn), "no instruction matching "+target.Name)
+		return false
+	}
+	nguards := 0
+	edge := func(from *ssa.BasicBlock, succ int) bool {
+		iff, ok := from.Instrs[len(from.Instrs)-1].(*ssa.If)
+		if !ok {
+			return true
+		}
+		c, neg := condCall(iff.Cond)
+		if c == nil || ssax.CalleeName(c.Common()) != callee || (argOK != nil && !argOK(c)) {
+			return true
+		}
+		nguards++
+		w := want != neg // outcome of the If condition that corresponds to callee()==want
+		if w {
+			return succ != 0 // drop the edge where the predicate holds as wanted
+		}
+		return succ != 1
+	}
+	tgt, path, found := (ssax.Search{Target: target.M, Edge: edge}).From(fn, nil)
+	if nguards == 0 {
+		r.Violate(rule, construct, r.fpos(fn), "no branch on "+callee+" with the expected operands found: "+why)
+		return false
+	}
+	if found {
+		r.Violate(rule, construct, r.pos(tgt), fmt.Sprintf("%s at %s is reachable without %s being %v (%s): %s", target.Name, r.pos(tgt), callee, want, blocksStr(path), why))
+		return false
+	}
+	r.Hold(rule, construct, r.fpos(fn), "control-dependent on the predicate")
+	return true
 }
